@@ -243,4 +243,19 @@ Proof.
     + intros x Hx. apply zrange_In in Hx. apply Hg. exact Hx.
 Qed.
 
+(* the cell ranges [ptr0 t k, ptr0 t k + bcount t k) tile [0, N) in (k, t) lexicographic order *)
+Lemma ranges_tile :
+  ptr0 0 0 = 0 /\
+  (forall t k, 0 <= t < T -> ptr0 (t + 1) k = ptr0 t k + bcount t k) /\
+  (forall k, ptr0 T k = ptr0 0 (k + 1)) /\
+  ptr0 0 np = N.
+Proof.
+  unfold ptr0, bcount. rewrite ts_0, ts_T. cbn [Z.to_nat firstn]. split; [|split; [|split]].
+  - rewrite ncnt_nil. rewrite nlt_low; [reflexivity|]. intros x Hx. apply Hfk in Hx. lia.
+  - intros t k Ht. rewrite (firstn_seg fk (ts t) (ts (t + 1))) by (split; [apply ts_nonneg; lia|apply ts_adj; lia]).
+    rewrite ncnt_app. lia.
+  - intros k. rewrite firstn_all2 by (unfold len in Hfk_len; lia). rewrite !ncnt_nil. rewrite nlt_succ. lia.
+  - rewrite ncnt_nil. rewrite nlt_high by (intros x Hx; apply Hfk in Hx; lia). unfold len in Hfk_len. lia.
+Qed.
+
 End Blocks.
